@@ -382,6 +382,43 @@ func (fr *Frame) step(in ssa.Instruction) {
 		if ifc, ok := dyn.(Iface); ok {
 			dyn = ifc.Dyn
 		}
+		if ifc, ok := v.(Iface); ok && ifc.Typ != nil {
+			// the dynamic type is known: the assertion is decided
+			holds := false
+			if _, isI := x.AssertedType.Underlying().(*types.Interface); isI {
+				holds = types.Implements(ifc.Typ, x.AssertedType.Underlying().(*types.Interface))
+			} else {
+				holds = types.Identical(ifc.Typ, x.AssertedType)
+			}
+			switch {
+			case holds && x.CommaOk:
+				if _, isI := x.AssertedType.Underlying().(*types.Interface); isI {
+					fr.regs[x] = Tuple{v, KBool(true)}
+				} else {
+					fr.regs[x] = Tuple{ifc.Dyn, KBool(true)}
+				}
+				return
+			case holds:
+				if _, isI := x.AssertedType.Underlying().(*types.Interface); isI {
+					fr.regs[x] = v
+				} else {
+					fr.regs[x] = ifc.Dyn
+				}
+				return
+			case x.CommaOk:
+				fr.regs[x] = Tuple{it.zeroValue(x.AssertedType), KBool(false)}
+				return
+			default:
+				panic(&goPanic{val: KStr("interface conversion: type assertion fails"), fn: fr.fn, pos: x.Pos()})
+			}
+		}
+		if _, isNil := v.(Nil); isNil {
+			if x.CommaOk {
+				fr.regs[x] = Tuple{it.zeroValue(x.AssertedType), KBool(false)}
+				return
+			}
+			panic(&goPanic{val: KStr("interface conversion: interface is nil"), fn: fr.fn, pos: x.Pos()})
+		}
 		if _, isHash := dyn.(HashRef); !isHash {
 			it.event("unmodelled", fr.fn, x.Pos(), "type assertion on %s", show(v))
 		}
